@@ -1,6 +1,7 @@
 # C16 — mirrored datagrams reach the third-party collector unchanged.
 # The REAL mirrorIPFIX / mirrorSFlow goroutines (in-package verif driver) send through their own raw
 # socket; a SOCK_RAW/IPPROTO_UDP receive socket observes the complete packets on the loopback.
+import json
 import vf
 from props.common import hx
 
@@ -10,6 +11,7 @@ class P:
 
     def __init__(self):
         self.cj = {}
+        self.off = {}
 
     def budget(self, tier):
         return 16 if tier == "quick" else 300
@@ -50,17 +52,59 @@ class P:
             self.cj[line] = {"cmd": "pipeline", "proto": proto, "workers": workers, "udpsize": mx, "mirror": True, "pre": [], "filter": [],
                              "ext_elements": [], "dgrams": [[s.hex(), p.hex()] for s, p in dg]}
             out.append(line)
+        # 'mirroring never changes what is decoded and published': the same datagrams through the real workers with mirroring ON and
+        # OFF must publish the same messages and count the same; including more datagrams than the mirror queue holds (1000; nothing
+        # drains it here), short ones first and long ones afterwards
+        from props import sfgen
+        from props.flowgen import Gen
+        from props.flowprop import go_model
+        g = Gen("ipfix", go_model(), rng)
+        for proto in ("ipfix", "sflow"):
+            for overflow in ([False, True] if tier == "quick" else [False, True, True, False, True]):
+                dg = []
+                a = bytes([192, 0, 2, 9])
+                if proto == "sflow":
+                    quiet = sfgen.gen_datagram(rng, kinds=["unknown"])[0]
+                    mk = lambda: sfgen.gen_datagram(rng, kinds=[rng.choice(["flow", "counter"]) for _ in range(rng.choice([1, 3, 6]))])[0]
+                    pre = []
+                else:
+                    t, o = g.rand_tpl(tid=256, allow_var=False)
+                    pre = [[a.hex(), g.enc_msg([g.enc_set(g.tpl_set_id(o), g.enc_tpl(t, o))]).hex()]]
+                    quiet = g.enc_msg([g.enc_set(7777, bytes(16))])
+                    mk = lambda: g.enc_msg([g.enc_set(256, b"".join(g.rand_record(t)[0] for _ in range(rng.choice([1, 4, 12]))))])
+                n_quiet = rng.choice([1005, 1100]) if overflow else rng.choice([3, 40])
+                dg = [(a, quiet)] * n_quiet + [(a, p) for p in (mk() for _ in range(40)) if len(p) <= 1400]
+                if overflow:
+                    # ... and once the queue is full: short ones and long ones in alternation
+                    dg += [(a, quiet if i % 2 == 0 else mk()[:1400]) for i in range(30)]
+                line = "pmirror-onoff %s %d %s" % (proto, len(dg), "overflow" if overflow else "room")
+                base = {"cmd": "pipeline", "proto": proto, "workers": 1, "udpsize": 1500, "pre": pre, "filter": [], "procs": 1,
+                        "ext_elements": [], "dgrams": [[s.hex(), p.hex()] for s, p in dg]}
+                self.cj[line] = dict(base, mirror=True)
+                self.off[line] = dict(base, mirror=False)
+                out.append(line)
         return out
 
     def post(self, lines, impl, model):
         return impl, [("-" if l.startswith("pmirror") else m) for l, m in zip(lines, model)]
 
     def run_impl(self, lines):
+        import re
         res = vf.run_driver([self.cj[l] for l in lines], timeout=1800)
+        onoff = [l for l in lines if l in self.off]
+        res_off = dict(zip(onoff, vf.run_driver([self.off[l] for l in onoff], timeout=1800))) if onoff else {}
         out = []
         for l, r in zip(lines, res):
             if "error" in r and r["error"]:
                 out.append("DRIVER-ERROR " + r["error"][:200]); continue
+            if l in self.off:
+                r0 = res_off[l]
+                if r0.get("error"):
+                    out.append("DRIVER-ERROR " + r0["error"][:200]); continue
+                norm = lambda r_: [re.sub(rb'"ColTime":\d+\}$', b'"ColTime":0}', bytes.fromhex(x)).hex() for x in (r_.get("published") or [])]
+                out.append("ONOFF " + json.dumps({"on": [norm(r), r["udp_count"], r["decoded_count"], r.get("short_buffers", 0)],
+                                                  "off": [norm(r0), r0["udp_count"], r0["decoded_count"], r0.get("short_buffers", 0)]}))
+                continue
             if l.startswith("pmirror"):
                 out.append("Q " + " ".join("%s/%s" % (a, b) for a, b in (r.get("mirrored_msgs") or [])))
                 continue
@@ -79,6 +123,20 @@ class P:
         if impl.startswith("DRIVER-ERROR"):
             return impl
         c = self.cj[line]
+        if impl.startswith("ONOFF "):
+            d = json.loads(impl[6:])
+            (pon, uon, don, son), (poff, uoff, doff, soff) = d["on"], d["off"]
+            if pon != poff:
+                k = next((i for i, (x, y) in enumerate(zip(pon, poff)) if x != y), min(len(pon), len(poff)))
+                return ("mirroring changes what is published: the same %d %s datagrams publish %d messages with mirroring on and %d with mirroring off "
+                        "(first difference at message %d: on %r / off %r)" % (len(c["dgrams"]), c["proto"], len(pon), len(poff), k + 1,
+                        bytes.fromhex(pon[k])[:120] if k < len(pon) else None, bytes.fromhex(poff[k])[:120] if k < len(poff) else None))
+            if (uon, don) != (uoff, doff):
+                return "mirroring changes the counters: UDPCount/DecodedCount %d/%d with mirroring on, %d/%d off" % (uon, don, uoff, doff)
+            if son and not soff:
+                return ("with mirroring on, %d receive buffer(s) shorter than max-udp-size are left in the pool (none with mirroring off): the next longer "
+                        "datagrams are truncated on receipt, so what is decoded, published and mirrored changes" % son)
+            return None
         if line.startswith("pmirror"):
             import collections
             got = [tuple(x.split("/")) for x in impl[2:].split(" ") if x]
@@ -109,10 +167,25 @@ class P:
                 return "datagram %d: IP/UDP length fields %d/%d inconsistent with a payload of %d octets" % (k, int.from_bytes(p[2:4], "big"), int.from_bytes(p[24:26], "big"), len(payload))
             if p[28:] != payload:
                 return "datagram %d: payload altered (%d octets sent, %d received)" % (k, len(payload), len(p) - 28)
-            if g != w:
-                return "model/implementation disagreement on datagram %d: impl %s model %s" % (k, g[:80], w[:80])
+            ck = int.from_bytes(p[26:28], "big")
+            if ck != 0:
+                # over IPv4 a UDP checksum of 0 means 'none'; any other value is verified by the receiving host, which drops the
+                # datagram when it is wrong: it then does not reach the third-party collector
+                seg = p[12:20] + bytes([0, 17]) + p[24:26] + p[20:26] + b"\0\0" + p[28:]
+                seg += b"\0" * (len(seg) % 2)
+                t = sum(int.from_bytes(seg[i:i + 2], "big") for i in range(0, len(seg), 2))
+                while t >> 16:
+                    t = (t & 0xffff) + (t >> 16)
+                good = (~t) & 0xffff or 0xffff
+                if ck != good:
+                    return ("datagram %d (%d octets, after datagrams of %s octets): the UDP checksum on the wire is 0x%04x, the correct one is 0x%04x: the "
+                            "mirror target's host discards the datagram" % (k, len(payload), [len(x[1]) // 2 for x in c["dgrams"][max(0, k - 3):k]], ck, good))
         if len(got) != len(want):
             return "%d datagrams mirrored, %d expected" % (len(got), len(want))
+        # the property holds for every datagram of the case; only then: the correspondence with the model
+        for k, (g, w) in enumerate(zip(got, want)):
+            if g != w:
+                return "model/implementation disagreement on datagram %d: impl %s model %s" % (k, g[:80], w[:80])
         return None
 
     def classify(self, line, impl, model):
@@ -126,9 +199,10 @@ class P:
         return ("per case (IPFIX and sFlow mirror functions alternately; max-udp-size 512/1500/9000; random target port): 18 datagrams with "
                 "payload lengths 0, 1, max-29..max, random, and runs of equal length from different exporters; source addresses in 4-byte "
                 "and IPv4-mapped 16-byte form; every octet of the packet seen on the wire is compared except IP identification and header "
-                "checksum (filled in by the kernel for IPPROTO_RAW senders). Plus 'pmirror' cases: the REAL ipfix/sflow workers with mirroring on "
+                "checksum (filled in by the kernel for IPPROTO_RAW senders); a UDP checksum other than 0 must be the correct one. Plus 'pmirror' cases: the REAL ipfix/sflow workers with mirroring on "
                 "(1/2/4 workers, 2-200 datagrams of mixed sizes), the mirror queue read only afterwards: what the worker queued must be exactly the "
-                "received (source, payload) pairs. every case is distinct")
+                "received (source, payload) pairs. Plus 'pmirror-onoff': the same datagrams (incl. 1005-1100 short ones that overflow the 1000-entry mirror queue, then long "
+                "ones) through the real worker with mirroring on and off: same published messages, same counters, no short buffers left in the pool. every case is distinct")
 
     def trusted_base(self):
         return ["Coq 8.16.1 kernel",
